@@ -434,13 +434,16 @@ func (e *Engine) registerModels() {
 		return nil
 	}
 	m["sort.Sort"] = func(in *Interp, fn *ssa.Function, a []Value) Value {
-		// insertion sort through the real Len/Less/Swap of the argument (sort.Sort itself
-		// uses insertion sort below 12 elements; larger inputs are outside every bound used)
 		d := a[0].(Iface)
 		n := int(in.concreteInt(in.invoke(d, "Len"), "sort len"))
 		if n > 12 {
 			panic(unsupported("sort.Sort of more than 12 elements"))
 		}
+		if sl, ok := d.v.(Slice); ok && n >= 2 && in.w.eng.params["SYMSORT"] == 1 && in.symbolicSort(d, sl, n) {
+			return nil
+		}
+		// insertion sort through the real Len/Less/Swap of the argument (sort.Sort itself
+		// uses insertion sort below 12 elements; larger inputs are outside every bound used)
 		for i := 1; i < n; i++ {
 			for j := i; j > 0; j-- {
 				less := in.invoke(d, "Less", in.tt.BV(64, uint64(j)), in.tt.BV(64, uint64(j-1))).(*Term)
@@ -565,6 +568,93 @@ func (e *Engine) registerModels() {
 	}
 	e.registerIntrinsics()
 	e.registerCodecModels()
+}
+
+// symbolicSort sorts a slice of hash codes with a compare-exchange network: the real
+// Less decides each comparator (its single branch joined by ite), the real Swap is
+// executed and its effect merged under the comparator's condition. No fork.
+func (in *Interp) symbolicSort(d Iface, sl Slice, n int) (ok bool) {
+	tt := in.tt
+	for _, e := range sl.v {
+		if _, isArr := e.(Array); !isArr {
+			return false
+		}
+		if _, packed := in.packBytes(e.(Array)); !packed {
+			return false
+		}
+	}
+	snapshot := func() []Value {
+		out := make([]Value, len(sl.v))
+		for i, e := range sl.v {
+			out[i] = copyVal(e)
+		}
+		return out
+	}
+	orig := snapshot()
+	defer func() {
+		if r := recover(); r != nil {
+			if _, isAbort := r.(mergeAbort); isAbort {
+				in.path.merge = nil
+				for i := range sl.v {
+					sl.v[i] = orig[i]
+				}
+				ok = false
+				return
+			}
+			panic(r)
+		}
+	}()
+	for i := 0; i < n-1; i++ {
+		for j := 0; j < n-1-i; j++ {
+			args := []Value{tt.BV(64, uint64(j+1)), tt.BV(64, uint64(j))}
+			c := in.callMergedBool(d, "Less", args...)
+			if c.IsConst() && c.val == 0 {
+				continue
+			}
+			before := snapshot()
+			in.invoke(d, "Swap", args...)
+			if c.IsConst() {
+				continue
+			}
+			for k := range sl.v {
+				wa, _ := in.packBytes(sl.v[k].(Array))
+				wb, _ := in.packBytes(before[k].(Array))
+				if wa == wb {
+					continue
+				}
+				w := tt.Ite(c, wa, wb)
+				bs := leBytes(tt, w)
+				arr := make(Array, 8)
+				for x := 0; x < 8; x++ {
+					arr[x] = bs[x]
+				}
+				sl.v[k] = arr
+			}
+		}
+	}
+	return true
+}
+
+// callMergedBool calls a pure bool method; a single symbolic branch inside is joined, not forked.
+func (in *Interp) callMergedBool(recv Iface, name string, args ...Value) *Term {
+	p := in.path
+	if p.merge != nil {
+		panic(mergeAbort{})
+	}
+	p.merge = &mergeCtx{force: true}
+	r1 := in.invoke(recv, name, args...).(*Term)
+	cond := p.merge.cond
+	if cond == nil {
+		p.merge = nil
+		return r1
+	}
+	p.merge = &mergeCtx{force: false}
+	r2 := in.invoke(recv, name, args...).(*Term)
+	if p.merge.cond != cond {
+		panic(mergeAbort{})
+	}
+	p.merge = nil
+	return in.tt.Ite(cond, r1, r2)
 }
 
 func (in *Interp) concretizeStr(s Str) string {
